@@ -17,6 +17,7 @@ limitations under the License.
 package tracing
 
 import "context"
+import "github.com/olive-io/bpmn/v2/pkg/verifhook"
 
 type Transformer func(trace ITrace) []ITrace
 
@@ -39,6 +40,7 @@ func NewRelay(ctx context.Context, in, out ITracer, transformer Transformer) {
 				//return
 			case trace, ok := <-ch:
 				if ok {
+					verifhook.Point("relay.forward")
 					traces := transformer(trace)
 					for _, t := range traces {
 						out.Send(t)
